@@ -235,9 +235,10 @@ def check_case(am, case):
     # centre: moved within the slip plane by a non-lattice amount and across it by whole repeat distances of the plane stacking (so that it stays between atomic planes)
     center = np.zeros(3)
     if case['center']:
-        center = case['center'] * width * n
-        if case['gen'] == 'monopole':       # (an array core away from the middle of the period is refused by the generator whenever atoms are deleted)
-            center = center + case['center'] * 0.37 * V[mi].dot(m) * m
+        if case['gen'] == 'monopole':
+            center = case['center'] * width * n + case['center'] * 0.37 * V[mi].dot(m) * m
+        elif abs(b.dot(m)) < 1e-9:
+            center = case['center'] * 0.37 * V[mi].dot(m) * m       # (with an edge component an array core away from the middle of the cell is refused: deletion count mismatch)
     kw['center'] = center
     if case['gen'] == 'monopole':
         if case['boundary']:
